@@ -237,11 +237,14 @@ def _memo_parse(path, missing_data_token=None):
 def config_for(i, tier='quick'):
     memo = (i % 10) != 9
     jumps = (i % 3) == 1
-    if i % 2 == 0:
+    if i % 8 == 0:
         c = {'mode': 'journal', 'memo': memo, 'clock_jumps': jumps}
         c['crashpoints'] = 'all' if tier == 'thorough' else 'sample'
+    elif i % 8 == 4:
+        c = {'mode': 'excpoint', 'memo': memo, 'clock_jumps': False}
+        c['crashpoints'] = 'all' if tier == 'thorough' else 'sample'
     else:
-        fault = ('none', 'oserror', 'death', 'mix')[(i // 2) % 4]
+        fault = ('none', 'oserror', 'death', 'mix', 'none', 'death')[(i % 8 + i // 8) % 6]
         c = {'mode': 'insitu', 'memo': memo, 'clock_jumps': jumps, 'fault': fault}
     return c
 
@@ -723,8 +726,129 @@ def check_log(ctx, ref, infl, V, where, ordered=True):
 # --------------------------------------------------------------------------
 # one simulated run (journal mode)
 # --------------------------------------------------------------------------
+class OneShotFault:
+    """Raise one OSError at file-system operation number k (the process survives)."""
+
+    def __init__(self, k, short=False):
+        self.k = k
+        self.short = short
+        self.fired = None
+        self.enospc = False
+
+    def fs_op(self, fs, idx, pid, kind, path, nbytes):
+        import errno
+        if self.enospc and kind == 'write':
+            self.enospc = False
+            return ('oserror', errno.ENOSPC)
+        if idx != self.k:
+            return None
+        self.fired = (kind, fs.rel(path))
+        if kind == 'write':
+            if self.short and nbytes > 1:
+                self.enospc = True
+                return ('short', nbytes // 2)
+            return ('oserror', errno.ENOSPC)
+        if kind.startswith('creat') or kind.startswith('open'):
+            return ('oserror', errno.EMFILE)
+        if kind in ('mkdir', 'symlink'):
+            return ('oserror', errno.ENOSPC)
+        return ('oserror', errno.EIO)
+
+
+def run_excpoints(cfg, tape, want_trace=False):
+    """Exception enumeration: the workload is executed from scratch once per sampled
+    file-system operation k with an OSError injected at k (the process survives and
+    carries on with its remaining operations); then restart checks."""
+    V = Verdicts()
+    _MEMO_ON[0] = bool(cfg.get('memo', True)) and not want_trace
+    wl = gen_workload(tape)
+    localfile = os.path.join(scratch_root(), 'local.lst')
+    if not os.path.exists(localfile):
+        with simfs._orig['open'](localfile, 'w') as fh:
+            fh.write('some local file\n' * 40)
+    h = hashlib.sha256()
+    harness = None
+    states = set()
+    trace = []
+
+    def execute(fault):
+        root = fresh_root()
+        fs = simfs.SimFS(root, tape=None, faults=fault, stats=V.stats)
+        _CLOCK[0] = SimClock(None)
+        ref = Ref()
+        failed = []
+        nonlocal harness
+        with fs:
+            ctx = quiet(_P['Ctx']('ctx', ref=root))
+            k0 = fs.nops
+            for op in wl['ops']:
+                if name_conflict(ref, op):
+                    continue
+                before = fault.fired if fault is not None else None
+                try:
+                    do_op(ctx, op, localfile)
+                except Exception as ex:
+                    if fault is None or (fault.fired is None):
+                        V.viol(f'fault-free-operation-failed/{op["kind"]}/{type(ex).__name__}',
+                               f'{fmt_op(op)} raised {ex!r} without any fault')
+                        return None
+                    failed.append(op)
+                    trace.append(f'{fmt_op(op)} -> {type(ex).__name__}')
+                    continue
+                del before
+                apply_ack(ref, op)
+            if fs.bypass:
+                harness = f'unmodelled file-system mutation: {fs.bypass[:3]}'
+        return root, ref, failed, k0, fs.nops, fs
+
+    base_run = execute(None)
+    if base_run is None:
+        n_ops = 0
+    else:
+        root, ref, failed, k0, n_ops, fs0 = base_run
+        h.update(repr([(o[0], o[1]) for o in fs0.journal]).encode())
+    points = []
+    if base_run is not None and n_ops > k0:
+        cand = list(range(k0, n_ops))
+        npts = len(cand) if cfg.get('crashpoints') == 'all' else min(6, len(cand))
+        for _ in range(npts):
+            points.append(cand.pop(tape.draw(len(cand), 'exc.point')))
+        points.sort()
+    for k in points:
+        fault = OneShotFault(k, short=bool(tape.draw(2, 'exc.short')))
+        out = execute(fault)
+        if out is None:
+            break
+        root, ref_k, failed, _, _, fsk = out
+        V.count('fault.oserror_point')
+        if fault.fired is None:
+            continue
+        states.add(int(simfs.tree_digest(root)[:15], 16))
+        where = f'OSError injected at fs-op {k} [{fault.fired[0]} {fault.fired[1]}]; failed: ' \
+                f'{[fmt_op(o) for o in failed]}'
+        try:
+            check_state(root, ref_k, list(failed), V, where, wl['models'])
+        except Exception:
+            import traceback
+            harness = f'oracle error at {where}: {traceback.format_exc()[-1200:]}'
+            break
+    h.update(repr(sorted(states)).encode())
+    h.update(repr([v['signature'] for v in V.violations]).encode())
+    res = {'violations': V.violations, 'harness_error': harness, 'digest': h.hexdigest(), 'steps': n_ops,
+           'switches': 0, 'outcome': 'ok', 'stats': V.stats, 'nontrivial': len(points) > 0,
+           'tape': list(tape.out), 'states': list(states), 'sim_seconds': 0.0}
+    if want_trace:
+        res['workload'] = {'models': [POOL[i]['name'] for i in wl['models']],
+                           'ops': [fmt_op(o) for o in wl['ops']]}
+        res['journal'] = trace
+        res['crash_points'] = [str(k) for k in points]
+    return res
+
+
 def run_one(cfg, tape: Tape, want_trace=False):
     prepare()
+    if cfg.get('mode') == 'excpoint':
+        return run_excpoints(cfg, tape, want_trace)
     if cfg.get('mode') == 'insitu':
         from checks import c16_insitu
         return c16_insitu.run_one(cfg, tape, want_trace)
@@ -927,9 +1051,9 @@ COMPONENTS = {
 
 def budget(tier):
     if tier == 'thorough':
-        return {'runs': 1200, 'chunk': 10, 'selftest_every': 50, 'xproc_runs': 6, 'run_timeout': 1500,
+        return {'runs': 3200, 'chunk': 16, 'selftest_every': 50, 'xproc_runs': 6, 'run_timeout': 1500,
                 'chunk_timeout': 3000, 'wall_limit': 4 * 3600, 'shrink_evals': 60, 'shrink_seconds': 600,
                 'xproc_timeout': 2400}
-    return {'runs': 96, 'chunk': 2, 'selftest_every': 24, 'xproc_runs': 4, 'run_timeout': 300,
+    return {'runs': 240, 'chunk': 4, 'selftest_every': 24, 'xproc_runs': 4, 'run_timeout': 300,
             'chunk_timeout': 900, 'wall_limit': 1500, 'shrink_evals': 40, 'shrink_seconds': 240,
             'xproc_timeout': 900}
